@@ -67,6 +67,11 @@ type caseT struct {
 	// M
 	Headers, Enforce, Callback bool
 	ViaNew                     bool `json:",omitempty"`
+	// ViaNew with WithCleanupInterval / WithLimiterTTL (milliseconds) and an idle pause of IdleMs before the
+	// first call whose Now is > 0 (the model puts those calls IdleTick ticks after the first phase)
+	CleanupMs, TTLMs, IdleMs int `json:",omitempty"`
+	// Cold: a C case produced by coldStart (fresh limiter, default store, simultaneous first requests)
+	Cold bool `json:",omitempty"`
 	// W
 	Win *winCase `json:",omitempty"`
 }
@@ -101,6 +106,7 @@ type traceGen struct {
 	keys     []string
 	now      int64
 	monotone bool
+	longKeys bool
 	lastRej  map[string]outT
 	lastAt   map[string]int64
 }
@@ -164,6 +170,16 @@ func newTraceGen(r *hx.Rand) *traceGen {
 	g.burst = hx.Pick(r, []int{1, 1, 2, 3, 5, 8, 20})
 	nk := hx.Pick(r, []int{1, 1, 2, 3})
 	g.keys = []string{"ip:10.0.0.1", "ip:10.0.0.2", "user:é", ""}[:nk]
+	if r.Chance(1, 4) {
+		// long keys (65–200 bytes) that share a long prefix (bearer tokens of one issuer, URLs, …)
+		pre := make([]byte, r.Range(64, 150))
+		for i := range pre {
+			pre[i] = "abcdefghijklmnopqrstuvwxyzABCDEFGHIJKLMNOPQRSTUVWXYZ0123456789._-"[r.Intn(65)]
+		}
+		p := "Bearer " + string(pre)
+		g.keys = []string{p + ".alice", p + ".bob", p[:64], p + ".alice.2"}[:hx.Pick(r, []int{2, 2, 3, 4})]
+		g.longKeys = true
+	}
 	g.monotone = !r.Chance(1, 3)
 	g.now = int64(r.Range(0, 1000))
 	return g
@@ -393,8 +409,13 @@ func (k *caseT) runMw(id string, st *hx.Stats, gen *traceGen, n int) string {
 		if k.ViaNew {
 			// the packaged constructor: wall clock, own store. All calls use one timestamp in the model;
 			// the run is kept only if it was fast enough for the refill to stay below one token.
-			r.Use(ratelimit.New(ratelimit.WithRequestsPerSecond(k.Rate), ratelimit.WithBurst(k.Burst),
-				ratelimit.WithKeyFunc(func(c *router.Context) string { return c.Request.Header.Get("X-Key") })))
+			nopts := []ratelimit.Option{ratelimit.WithRequestsPerSecond(k.Rate), ratelimit.WithBurst(k.Burst),
+				ratelimit.WithKeyFunc(func(c *router.Context) string { return c.Request.Header.Get("X-Key") })}
+			if k.CleanupMs > 0 {
+				nopts = append(nopts, ratelimit.WithCleanupInterval(time.Duration(k.CleanupMs)*time.Millisecond),
+					ratelimit.WithLimiterTTL(time.Duration(k.TTLMs)*time.Millisecond))
+			}
+			r.Use(ratelimit.New(nopts...))
 		} else {
 			cs = &clockStore{inner: ratelimit.NewInMemoryTokenBucketStore(k.Rate, k.Burst)}
 			r.Use(ratelimit.WithTokenBucket(ratelimit.TokenBucket{Rate: k.Rate, Burst: k.Burst, Store: cs},
@@ -402,6 +423,7 @@ func (k *caseT) runMw(id string, st *hx.Stats, gen *traceGen, n int) string {
 		}
 		r.GET("/", func(*router.Context) { ran = true })
 		t0 := time.Now()
+		idled := false
 		cnt := len(k.Calls)
 		if gen != nil {
 			cnt = n
@@ -421,6 +443,10 @@ func (k *caseT) runMw(id string, st *hx.Stats, gen *traceGen, n int) string {
 			if cs != nil {
 				cs.now = at(c.Now)
 			}
+			if k.ViaNew && c.Now > 0 && !idled {
+				idled = true
+				time.Sleep(time.Duration(k.IdleMs) * time.Millisecond)
+			}
 			ran = false
 			m, _ := serveOnce(r, c.Key, nil)
 			m.Ran = ran
@@ -433,7 +459,13 @@ func (k *caseT) runMw(id string, st *hx.Stats, gen *traceGen, n int) string {
 			}
 			rows = append(rows, row)
 		}
-		if k.ViaNew && time.Since(t0)*time.Duration(k.Rate) > 400*time.Millisecond {
+		// wall-clock run: kept only if the whole run refilled well below one token, so that every decision,
+		// `remaining` and `reset` is the same for every instant the calls can have read the clock at
+		limit := 400 * time.Millisecond
+		if k.IdleMs > 0 {
+			limit = 800 * time.Millisecond
+		}
+		if k.ViaNew && time.Since(t0)*time.Duration(k.Rate) > limit {
 			discard = "M.discarded_slow_run_via_New"
 		}
 	})
@@ -493,6 +525,7 @@ type winReq struct {
 	PauseCleanup      bool  `json:",omitempty"` // wait until the store's cleanup ticker has fired once
 	Noise             bool  `json:",omitempty"` // (default-store cases) the request goes to the second limiter and is not judged
 	NextSec           bool  `json:",omitempty"` // (default-store cases) first sleep into the next wall-clock second
+	SleepMs           int   `json:",omitempty"` // sleep that long before the request
 	now               int64 // t0 in ns (filled while running)
 }
 
@@ -573,7 +606,6 @@ func (w *winCase) runDefault(id string) (line string, discard string, nontrivial
 	key := fmt.Sprintf("dflt-%d-%d", os.Getpid(), dfltSeq.n) // the default store may be shared: keep cases apart
 	dfltSeq.Unlock()
 	window := time.Duration(w.W) * time.Second
-	Wns := int64(window)
 	ran := false
 	r := router.MustNew()
 	h := func(*router.Context) { ran = true }
@@ -609,7 +641,8 @@ func (w *winCase) runDefault(id string) (line string, discard string, nontrivial
 		}
 	})
 	for _, row := range rows {
-		if row.t0/Wns != row.t1/Wns || row.t0/Wns != rows[0].t0/Wns {
+		if !time.Unix(0, row.t0).Truncate(window).Equal(time.Unix(0, row.t1).Truncate(window)) ||
+			!time.Unix(0, row.t0).Truncate(window).Equal(time.Unix(0, rows[0].t0).Truncate(window)) {
 			return "", "W.discarded_window_changed_during_request", false, false
 		}
 		if row.t0/1e9 != row.t1/1e9 {
@@ -718,6 +751,9 @@ func (w *winCase) run(id string) (line string, discard string, nontrivial bool, 
 			if q.PauseCleanup {
 				time.Sleep(time.Until(created.Add(cleanupWait)))
 			}
+			if q.SleepMs > 0 {
+				time.Sleep(time.Duration(q.SleepMs) * time.Millisecond)
+			}
 			if q.SleepToNextWindow {
 				next := time.Now().Truncate(window).Add(window).Add(time.Duration(q.OffsetMs) * time.Millisecond)
 				time.Sleep(time.Until(next))
@@ -764,14 +800,11 @@ func (w *winCase) run(id string) (line string, discard string, nontrivial bool, 
 		g := ss.got[i]
 		tg := ss.tG[i].UnixNano()
 		te := t1[i].UnixNano()
-		if t0/Wns != te/Wns {
+		if !time.Unix(0, t0).Truncate(window).Equal(time.Unix(0, te).Truncate(window)) {
 			return "", "W.discarded_window_changed_during_request", false, false
 		}
 		if t0/1e9 != tg/1e9 {
 			return "", "W.discarded_second_changed_during_request", false, false
-		}
-		if g[2] != (t0/Wns)*int64(w.W) {
-			return "", "W.discarded_window_start_differs", false, false
 		}
 		if g[1] > 0 {
 			num := func(t int64) int64 {
@@ -826,7 +859,7 @@ func (w *winCase) run(id string) (line string, discard string, nontrivial bool, 
 func (w *winCase) shape() string {
 	s := fmt.Sprintf("W %d %d %v %v %v %v %d", w.Limit, w.W, w.Headers, w.Enforce, w.Callback, w.DefaultStore, w.NoiseW)
 	for _, q := range w.Reqs {
-		s += fmt.Sprintf(" %s/%v/%d/%v/%v", q.Key, q.SleepToNextWindow, q.RetryOf, q.Noise, q.NextSec)
+		s += fmt.Sprintf(" %s/%v/%d/%v/%v/%d", q.Key, q.SleepToNextWindow, q.RetryOf, q.Noise, q.NextSec, q.SleepMs/500)
 	}
 	return s + fmt.Sprint(w.Sched)
 }
@@ -835,7 +868,8 @@ func genWin(r *hx.Rand, rolling bool) *winCase {
 	w := &winCase{Limit: r.Range(1, 4), Headers: !r.Chance(1, 6), Enforce: !r.Chance(1, 8), Callback: r.Chance(1, 10)}
 	keys := []string{"a", "b"}[:r.Range(1, 2)]
 	if !rolling {
-		w.W = 3600
+		// window lengths that do and do not divide 24 h (time.Truncate counts from Go's zero time)
+		w.W = hx.Pick(r, []int{3600, 3600, 420, 604800, 7, 11, 35 * 60})
 		n := r.Range(1, 9)
 		for i := 0; i < n; i++ {
 			w.Reqs = append(w.Reqs, winReq{Key: hx.Pick(r, keys)})
@@ -890,10 +924,43 @@ func genWin(r *hx.Rand, rolling bool) *winCase {
 	return w
 }
 
+// genWinOdd: a window of W seconds that does not divide 24 h, in real time: bursts of requests spread over
+// one window length, so that a boundary of the window grid — and of any other grid a store might use — is
+// crossed inside the case.
+func genWinOdd(r *hx.Rand, W int) *winCase {
+	w := &winCase{Limit: r.Range(3, 5), W: W, Headers: true, Enforce: true}
+	parts := 3
+	for p := 0; p <= parts; p++ {
+		n := 2
+		if p == 0 {
+			n = w.Limit + r.Range(0, 1)
+		}
+		for i := 0; i < n; i++ {
+			q := winReq{Key: "a"}
+			if i == 0 && p > 0 {
+				q.SleepMs = W*1000/parts - 40 + r.Range(0, 60)
+			}
+			w.Reqs = append(w.Reqs, q)
+		}
+	}
+	w.Sched = serialSched(len(w.Reqs))
+	return w
+}
+
 // ---------------------------------------------------------------------------------------------
 
 func emitCase(id string, k *caseT, st *hx.Stats) string {
 	switch k.Kind {
+	case "K":
+		{
+			for try := 0; try < 200; try++ { // the interleaving is up to the scheduler: try until it differs or give up
+				line, _, adm := coldStart(id, k.Rate, k.Burst, k.NConc, k.ViaNew)
+				if line != "" && (adm != min(k.Burst, k.NConc) || try == 199) {
+					return line
+				}
+			}
+			return ""
+		}
 	case "S", "C":
 		return k.runStore(id, st, nil, 0)
 	case "M":
@@ -918,8 +985,8 @@ func emitCase(id string, k *caseT, st *hx.Stats) string {
 			if raced {
 				st.Count("W.context_switch_between_GetCounts_and_Incr")
 			}
-			if k.Win.W < 3600 {
-				st.Count("W.rolling_window_real_time")
+			if 86400%k.Win.W != 0 {
+				st.Count("W.window_not_dividing_24h")
 			}
 		}
 		return line + hx.Comment(k)
@@ -934,6 +1001,78 @@ func indexSep(s string) int {
 		}
 	}
 	return -1
+}
+
+// coldStart: a FRESH limiter without an explicit store, hit by G goroutines released together with its
+// very first requests (one key). The answers are read back from the response headers and listed
+// admitted-first; all calls carry one timestamp in the model, and the run is kept only if it was fast
+// enough for the refill to stay below 0.4 token. Sound for every interleaving.
+func coldStart(id string, rate, burst, G int, viaNew bool) (line string, discard string, admitted int) {
+	key := "cold"
+	ran := make([]bool, G)
+	type ctxK struct{}
+	r := router.MustNew()
+	if viaNew {
+		r.Use(ratelimit.New(ratelimit.WithRequestsPerSecond(rate), ratelimit.WithBurst(burst),
+			ratelimit.WithKeyFunc(func(c *router.Context) string { return c.Request.Header.Get("X-Key") })))
+	} else {
+		r.Use(ratelimit.WithTokenBucket(ratelimit.TokenBucket{Rate: rate, Burst: burst}, commonOpts(true, true, false)))
+	}
+	r.GET("/", func(c *router.Context) { ran[c.Request.Context().Value(ctxK{}).(int)] = true })
+	obs := make([]mwObs, G)
+	start := make(chan struct{})
+	var wg sync.WaitGroup
+	panicked := false
+	for i := 0; i < G; i++ {
+		wg.Add(1)
+		go func(i int) {
+			defer wg.Done()
+			defer func() {
+				if p := recover(); p != nil {
+					panicked = true
+				}
+			}()
+			ctx := context.WithValue(context.Background(), ctxK{}, i)
+			<-start
+			obs[i], _ = serveOnce(r, key, ctx)
+		}(i)
+	}
+	t0 := time.Now()
+	close(start)
+	wg.Wait()
+	if time.Since(t0)*time.Duration(rate) > 400*time.Millisecond {
+		return "", "K.discarded_slow_cold_start", 0
+	}
+	k := &caseT{Kind: "K", Rate: rate, Burst: burst, NConc: G, ViaNew: viaNew, Headers: true, Enforce: true}
+	res := make([]outT, G)
+	for i := range obs {
+		rem, _ := strconv.Atoi(first(obs[i].Remaining))
+		rst, _ := strconv.Atoi(first(obs[i].Reset))
+		res[i] = outT{obs[i].Status != http.StatusTooManyRequests && ran[i], rem, rst}
+		k.Calls = append(k.Calls, callT{Key: key})
+		if res[i].Allowed {
+			admitted++
+		}
+	}
+	sort.SliceStable(res, func(i, j int) bool {
+		if res[i].Allowed != res[j].Allowed {
+			return res[i].Allowed
+		}
+		return res[i].Remaining > res[j].Remaining
+	})
+	l := hx.NewLine(id).Tok("K").Nat(rate).Nat(burst)
+	callsTokens(l, k.Calls)
+	l.Sep()
+	if panicked {
+		l.Tok("P")
+	} else {
+		l.Nat(G)
+		for _, o := range res {
+			outTokens(l, o)
+		}
+	}
+	k.Cold = true
+	return l.String() + hx.Comment(k), "", admitted
 }
 
 func fixedCases() []*caseT {
@@ -1023,6 +1162,12 @@ func main() {
 			rolls[i].id = fmt.Sprintf("c16-%d-roll-%d", a.Seed, i)
 			if i%3 == 2 {
 				rolls[i].k = &caseT{Kind: "W", Win: genWinDefault(r)} // two limiters on the default store
+			} else if i%6 == 1 {
+				W := 7
+				if a.Tier == "thorough" && i%12 == 1 {
+					W = 11
+				}
+				rolls[i].k = &caseT{Kind: "W", Win: genWinOdd(r, W)} // window not dividing 24 h, real time
 			} else {
 				rolls[i].k = &caseT{Kind: "W", Win: genWin(r, true)}
 			}
@@ -1103,6 +1248,65 @@ func main() {
 				st.Count("W.discarded_fixed_witness_timing")
 			}
 		}
+		// ---- cold-start limiters (simultaneous first requests on a fresh default store)
+		nCold := 800
+		if a.Tier == "thorough" {
+			nCold = 2000
+		}
+		if a.N < 200 {
+			nCold = 0
+		}
+		for i := 0; i < nCold; i++ {
+			rate, burst, G := hx.Pick(r, []int{1, 1, 2, 10}), hx.Pick(r, []int{1, 1, 2, 3}), hx.Pick(r, []int{4, 8, 16, 16})
+			line, disc, adm := coldStart(fmt.Sprintf("c16-%d-cold-%d", a.Seed, i), rate, burst, G, i%3 == 0)
+			if disc != "" {
+				st.Count(disc)
+				continue
+			}
+			fmt.Fprintln(w, line)
+			st.Case(fmt.Sprintf("cold %d %d %d %v", rate, burst, G, i%3 == 0), G > burst)
+			st.Count("K.cold_start_limiters")
+			if adm != min(burst, G) {
+				st.Count("K.cold_start_admitted_fewer_than_burst")
+			}
+		}
+		// ---- ratelimit.New with small cleanup interval / TTL, drained, idle past TTL + 2 ticks, back again
+		nIdle := 12
+		if a.N < 200 {
+			nIdle = 0
+		}
+		idleLines := make([]string, nIdle)
+		var iwg sync.WaitGroup
+		for i := 0; i < nIdle; i++ {
+			k := &caseT{Kind: "M", ViaNew: true, Headers: true, Enforce: true, Rate: hx.Pick(r, []int{1, 1, 2}), Burst: r.Range(2, 6),
+				CleanupMs: hx.Pick(r, []int{10, 20}), TTLMs: hx.Pick(r, []int{30, 50}), IdleMs: 170}
+			keys := []string{"idle-a", "idle-b"}[:r.Range(1, 2)]
+			for _, key := range keys {
+				for j, n := 0, k.Burst+r.Range(-1, 1); j < n; j++ {
+					k.Calls = append(k.Calls, callT{Key: key})
+				}
+			}
+			for _, key := range keys {
+				for j, n := 0, r.Range(1, k.Burst+1); j < n; j++ {
+					k.Calls = append(k.Calls, callT{Key: key, Now: 64})
+				}
+			}
+			iwg.Add(1)
+			go func(i int, k *caseT) {
+				defer iwg.Done()
+				idleLines[i] = k.runMw(fmt.Sprintf("c16-%d-idle-%d", a.Seed, i), nil, nil, 0)
+			}(i, k)
+		}
+		iwg.Wait()
+		for i, il := range idleLines {
+			if il == "" {
+				st.Count("M.discarded_slow_run_via_New")
+				continue
+			}
+			fmt.Fprintln(w, il)
+			st.Case("idle-"+strconv.Itoa(i), true)
+			st.Count("M.via_New_idle_past_TTL_with_small_cleanup_interval")
+		}
 		for i, sl := range slowLines {
 			if sl != "" {
 				fmt.Fprintln(w, sl)
@@ -1122,6 +1326,8 @@ func main() {
 			st.Count("W.cases")
 			if rr.k.Win.DefaultStore {
 				st.Count("W.two_limiters_on_the_default_store")
+			} else if 86400%rr.k.Win.W != 0 {
+				st.Count("W.real_time_window_not_dividing_24h")
 			} else {
 				st.Count("W.rolling_window_real_time")
 			}
